@@ -18,7 +18,7 @@ const chkC07 = "c07-fixedpoint-ingress"
 
 func runC07(t vlib.TB, c *Case) {
 	fail := func(sig, format string, args ...any) { vlib.Fail(t, chkC07, sig, c, format, args...) }
-	e, err := newEnv(c)
+	e, err := newEnv(chkC07, c)
 	if err != nil {
 		t.Fatalf("harness: %v", err)
 	}
